@@ -20,6 +20,9 @@ def execute(case):
         for p in provs:
             p.connect({"key": "val"})
         storage = MockStorage({})
+        if case.get("smart"):
+            from cloudsync.smartsync import SmartSyncState
+            SyncState = SmartSyncState              # the on-demand engine's table (overrides the pending-set accessor)
         st = SyncState(provs, storage, tag="t")
         names = Names(("local", "remote"))
         proj = StateProjector(names)
@@ -48,6 +51,8 @@ def execute(case):
                         ent = st.lookup_oid(side, oid)
                         if ent is not None:
                             ent.ignore(IgnoreReason.DISCARDED)
+                    elif op["op"] == "forget":
+                        st.forget()
                     else:
                         raise MachineryError("unknown state op %r" % (op,))
                     st.storage_commit()
